@@ -4,7 +4,7 @@
    [bad] = a deallocate of a block not outstanding in that manager happened (foreign or double free),
    [fuse] = failure injection (Some k: the allocation after k successful ones is refused, once). *)
 From Coq Require Import List Arith Bool Lia Permutation.
-Require Import XV.GenCont XV.GenMem XV.MemDefs XV.MemModel XV.MemListModel XV.MemArenaModel.
+Require Import XV.GenCont XV.GenMem XV.MemDefs XV.MemModel XV.MemListModel XV.MemArenaModel XV.MemMapDefs.
 Import ListNotations.
 
 (* the shapes of the source that the model follows (regenerated from /repo on every run) *)
@@ -13,7 +13,8 @@ Theorem source_shape :
   vec_reserve_copy_then_swap = true /\ list_dtor_guarded = true /\ list_dtor_frees_all = true /\
   list_head_lazy = true /\ list_swap_swaps_manager = true /\ list_erase_recycles = true /\
   arena_dtor_resets = true /\ arena_create_then_push = true /\ arenablock_dtor_all_objects = true /\
-  arenablock_dtor_frees_storage = true.
+  arenablock_dtor_frees_storage = true /\ map_dtor_guard_buckets = true /\ map_dtor_frees_values = true /\
+  map_clear_recycles = true /\ map_value_before_node = true.
 Proof. repeat split; reflexivity. Qed.
 Print Assumptions source_shape.
 
@@ -198,3 +199,38 @@ Print Assumptions dtor_guard_exact.
 Example arena_guard_satisfiable :
   let '(a, h) := run _ _ astep [ANew 8] (arena0 0 2) (heap0 None) in lhead (alist a) <> None.
 Proof. vm_compute. discriminate. Qed.
+
+(* ---------------- XalanMap (model tied by correspondence only; the statements below are witnesses) *)
+
+(* dtor_never_allocates is refuted for XalanMap too: the copy of an empty map has one bucket and a free-entries
+   list that was never used; ~XalanMap calls m_freeEntries.begin() because m_buckets is not empty *)
+Theorem map_dtor_never_allocates_refuted :
+  r_dtor_events (map_case None 3 3 [MAssign true]) =
+    [EFree 0 1; EAlloc 1 TAG_MNODE 1 2; EFree 1 0; EFree 1 2] /\
+  r_dtor_ok (map_case (Some 2) 3 3 [MAssign true]) = false.
+Proof. split; vm_compute; reflexivity. Qed.
+Print Assumptions map_dtor_never_allocates_refuted.
+
+(* ... and the refusal can come from inside operator= (its temporary is destroyed): std::terminate during an
+   operation, not only at the end *)
+Theorem map_assign_terminates_refuted :
+  exists f ops, existsb (fun s => negb (fst (fst s))) (r_steps (map_case f 3 3 ops)) = true /\
+    last (map (fun s => last (snd (fst s)) EThrow) (r_steps (map_case f 3 3 ops))) EThrow = EThrow.
+Proof.
+  exists (Some 26), [MInsert true 5; MAssign true; MErase true 27; MInsert false 36; MInsert false 5; MAssign true].
+  vm_compute. split; reflexivity.
+Qed.
+Print Assumptions map_assign_terminates_refuted.
+
+(* alloc_failure_safe for XalanMap, "destruction balances the ledger after a refusal": refuted.
+   doCreateEntry does m_freeEntries.push_back(Entry(allocate(1))): the value block is lost when the node cannot
+   be allocated (1); and a refused bucket push_back leaves the new entry in m_entries, in no bucket, with m_size
+   not incremented (2) - the state behind the SIGSEGV of known finding K23 *)
+Theorem map_alloc_failure_safe_refuted :
+  r_outstanding (map_case (Some 4) 3 3 [MInsert false 1; MInsert false 2]) = 1 /\
+  r_outstanding (map_case (Some 5) 3 3 [MInsert false 1; MInsert false 2]) = 1 /\
+  (let '(h, w, ok) := mstep (MInsert false 1) (map0 0 3 3, map0 1 3 3) (heap0 (Some 5)) in
+   ok = false /\ length (mentries (fst w)) = 1 /\ msize (fst w) = 0 /\
+   forallb (fun b => match brefs b with [] => true | _ => false end) (mbuckets (fst w)) = true).
+Proof. split; [|split]; vm_compute; auto. Qed.
+Print Assumptions map_alloc_failure_safe_refuted.
